@@ -155,6 +155,7 @@ def module_globals():
 
 
 _counter = [0]
+_last_namespace = [None]
 
 
 def run_module(code, generator):
@@ -175,6 +176,7 @@ def run_module(code, generator):
     try:
       spec.loader.exec_module(mod)
       fx = mod.config_fixture
+      _last_namespace[0] = dict(mod.__dict__)
       return fx.as_buildable() if generator == 'auto' else fx()
     finally:
       sys.modules.pop(name, None)
@@ -277,7 +279,19 @@ def execute(case):
   obs['same'] = got == want
   if not obs['same']:
     obs['got'], obs['want'] = got, want
-  return obs, None
+  # model correspondence: the emitted text, read as a program of Model/Codegen.lean and executed
+  # by the Lean semantics, must build the input configuration
+  from harness import codeparse
+  from harness.props import C07
+  req = None
+  try:
+    req = codeparse.program_of(code, _last_namespace[0], auto=(case['generator'] == 'auto'))
+    enc_req, _enc = graphs.encode(cfg, with_defaults=False, atom_pred=codeparse.leaf_atom_pred)
+    obs['m_input'] = codeparse.canon_heap([C07.project_obj(o) for o in enc_req['objs']], enc_req['root'])
+  except codeparse.Unsupported as e:
+    obs['m_unsupported'] = str(e)[:120]
+    req = None
+  return obs, req
 
 
 def ntuple_as_tuple(c):
@@ -290,6 +304,14 @@ def ntuple_as_tuple(c):
 
 
 def compare(real, model):
+  if model is None or 'm_input' not in real or real.get('same') is not True:
+    return []          # a real mismatch is the oracle's business (violation or recorded finding)
+  from harness import codeparse
+  if model.get('run') != 'ok':
+    return [('executing the emitted program in the model', 'ran', model.get('run'))]
+  got = codeparse.canon_heap(model['heap'], model['root'])
+  if got != real['m_input']:
+    return [('configuration built by the emitted program (model execution) vs input', real['m_input'], got)]
   return []
 
 
